@@ -238,6 +238,29 @@ def check_fanout(ctx, R):
         bad = []
     R.ob('FANOUT', con, 'calls-update-once-with-x', badcall is None and n > 0, badcall[1] if badcall else '',
          ctx.where(fn, fn.node.lineno), fmt_path(badcall[0]) if badcall else None, n)
+    # the metadata handed to every sibling (and released after each) is what this call of _emit received: a value re-read from
+    # node state inside the loop changes when a downstream re-enters _emit (feedback edge, a sink that emits a follow-up)
+    if loop_node is not None:
+        reread, nm = None, 0
+        for c in ast.walk(loop_node):
+            if not (isinstance(c, ast.Call) and isinstance(c.func, ast.Attribute)):
+                continue
+            if c.func.attr == 'update':
+                margs = [k.value for k in c.keywords if k.arg == 'metadata'] + list(c.args[2:3])
+            elif c.func.attr in ('_release_refs', '_retain_refs'):
+                margs = list(c.args[:1]) + [k.value for k in c.keywords if k.arg == 'metadata']
+            else:
+                continue
+            for a in margs:
+                nm += 1
+                f = [self_field(y) for y in ast.walk(a) if self_field(y)]
+                if f:
+                    reread = 'self.%s in %s (line %d)' % (f[0], src(c)[:70], c.lineno)
+        if nm:
+            R.ob('FANOUT', con, 'metadata-of-this-call', reread is None,
+                 'the metadata delivered to / released for each sibling is re-read from node state inside the delivery loop (%s): '
+                 'a downstream that re-enters _emit replaces it, the remaining siblings get this element with the other '
+                 'element\'s metadata' % reread, ctx.where(fn, line), None, nm)
     R.ob('FANOUT', con, 'results-returned', bad is None and n > 0,
          'what downstream.update() returned does not reach the list _emit returns', ctx.where(fn, fn.node.lineno),
          fmt_path(bad) if bad else None, n)
@@ -522,6 +545,17 @@ def check_swap_atomic(ctx, R, classes):
                         if ems:
                             bad = True
                             why = 'suspends' if any(x.kind == 'SUS' for x in evs[ems[0]:j]) else 're-entrant'
+                    # the same through a loop over (a snapshot of) f whose body emits - whatever the emitted value was
+                    # routed through - with the reset only after the loop
+                    for r in range(start, j):
+                        ie = evs[r]
+                        if ie.kind == 'ITER' and ie.a == 0 and (('field:' + f) in ((ie.x or {}).get('iter_tags') or ())
+                                                               or (ie.x or {}).get('iter_field') == f):
+                            node = (ie.x or {}).get('node')
+                            end = next((i for i in range(r + 1, j) if evs[i].kind in ('LOOPEXIT', 'LOOPCUT')
+                                        and (evs[i].x or {}).get('node') is node), j)
+                            if any(evs[i].kind == 'EM' for i in range(r, end)):
+                                bad = True
                     # a reset that is not a swap and whose content was not emitted before loses elements
                     cur = acc.get(f)
                     if cur is None or (cur[0] and bad):
@@ -1063,6 +1097,23 @@ def check_single_consumer(ctx, R, classes):
                                     k += 1
                                     node_hit = cn
                     best = max(best, k)
+                if best:
+                    # sites inside helpers that only the constructor reaches are on those paths already: not counted twice
+                    def _callers(name):
+                        return {cname for cname, c in cls.methods.items() for x in own_nodes(c.node)
+                                if isinstance(x, ast.Call) and isinstance(x.func, ast.Attribute) and x.func.attr == name
+                                and isinstance(x.func.value, ast.Name) and x.func.value.id == 'self'}
+                    ctor_only = {'__init__'}
+                    grew = True
+                    while grew:
+                        grew = False
+                        for mname in cls.methods:
+                            if mname not in ctor_only:
+                                cs = _callers(mname)
+                                if cs and cs <= ctor_only:
+                                    ctor_only.add(mname)
+                                    grew = True
+                    sites = [(fn, n) for fn, n in sites if fn.name == '__init__' or fn.name not in ctor_only]
                 sites.extend((init_fn, node_hit) for _ in range(best))
             if not sites:
                 continue
